@@ -392,9 +392,9 @@ func (g *schemaGenerator) structFieldValidators(
 		} else if strings.Contains(v.Type, "int") || v.Type == float64Type {
 			if f.SchemaType.MultipleOf != nil ||
 				f.SchemaType.Maximum != nil ||
-				f.SchemaType.ExclusiveMaximum != nil ||
+				isNumericBound(f.SchemaType.ExclusiveMaximum) ||
 				f.SchemaType.Minimum != nil ||
-				f.SchemaType.ExclusiveMinimum != nil {
+				isNumericBound(f.SchemaType.ExclusiveMinimum) {
 				validators = append(validators, &numericValidator{
 					jsonName:         f.JSONName,
 					fieldName:        f.Name,
@@ -440,6 +440,18 @@ func (g *schemaGenerator) structFieldValidators(
 	}
 
 	return validators
+}
+
+// isNumericBound reports whether an exclusiveMinimum/exclusiveMaximum value is a bound by
+// itself (numeric form); the draft-4 boolean form only qualifies minimum/maximum.
+func isNumericBound(exclusive *any) bool {
+	if exclusive == nil {
+		return false
+	}
+
+	_, ok := (*exclusive).(float64)
+
+	return ok
 }
 
 func (g *schemaGenerator) generateUnmarshaler(decl codegen.TypeDecl, validators []validator) {
